@@ -14,7 +14,7 @@ def h_params_parseParams : Nat := 0xbeec01e50e009280
 def h_params_buildParams : Nat := 0xc661a241aa7c3385
 
 /-- hash of the normalised skeleton of Params (internal/persistence/model/status.go) -/
-def h_params_modelParams : Nat := 0xd5aca1d26d2eb7c6
+def h_params_modelParams : Nat := 0x19c637a53fbf593c
 
 /-- hash of the normalised skeleton of removeQuotes (cmd/start.go) -/
 def h_params_removeQuotes : Nat := 0xfea83fbd662f4e7f
